@@ -35,6 +35,7 @@ const (
 type thread struct {
 	id     int
 	name   string
+	client bool // spawned by harness (driver) code, not by the instrumented packages
 	wake   chan struct{}
 	op     *pendingOp
 	ready  bool // op completed by a partner; waiting to be scheduled again
@@ -275,7 +276,9 @@ func Go(f func()) {
 	if s.abort {
 		return
 	}
-	t := s.newThread(callerName())
+	name, client := callerName()
+	t := s.newThread(name)
+	t.client = client
 	t.op = &pendingOp{kind: opStart, label: "start"}
 	s.wgAll.Add(1)
 	go func() {
@@ -291,19 +294,27 @@ func Go(f func()) {
 	s.yield(&pendingOp{kind: opPoint, label: "go"})
 }
 
-func callerName() string {
+func callerName() (string, bool) {
 	_, file, line, ok := runtime.Caller(2)
 	if !ok {
-		return "?"
+		return "?", false
 	}
+	client := strings.Contains(file, "/props/") || strings.Contains(file, "/sched/")
 	for i := len(file) - 1; i >= 0; i-- {
 		if file[i] == '/' {
 			file = file[i+1:]
 			break
 		}
 	}
-	return fmt.Sprintf("%s:%d", file, line)
+	return fmt.Sprintf("%s:%d", file, line), client
 }
+
+// ClientPriority orders the enabled set of the DEFAULT schedule as: the running thread (if still
+// enabled), then the driver's own threads by creation order, then the threads of the instrumented
+// packages (introducer, persister, merger, helpers) by creation order. Clients run ahead and
+// background work happens when they block; a deviation lets one background step happen early (or a
+// client step late). With false the order is purely by creation id.
+var ClientPriority = false
 
 // Daemon marks the calling thread as a daemon (does not count for deadlock).
 func Daemon() {
@@ -579,9 +590,22 @@ func (s *sched) pick(from *thread) *thread {
 		en = append(en, from)
 		curEnabled = true
 	}
-	for _, t := range s.threads {
-		if t != from && s.enabled(t) {
-			en = append(en, t)
+	if ClientPriority {
+		for _, t := range s.threads {
+			if t != from && (t.client || t.id == 0) && s.enabled(t) {
+				en = append(en, t)
+			}
+		}
+		for _, t := range s.threads {
+			if t != from && !(t.client || t.id == 0) && s.enabled(t) {
+				en = append(en, t)
+			}
+		}
+	} else {
+		for _, t := range s.threads {
+			if t != from && s.enabled(t) {
+				en = append(en, t)
+			}
 		}
 	}
 	if len(en) == 0 {
